@@ -52,7 +52,11 @@ class Work:
             if a["how"] == "rel":
                 disps[a["id"]] = s.schedule_relative(a["ms"] / 1000.0, action)
             elif a["how"] == "abs":
-                disps[a["id"]] = s.schedule_absolute(base_dt + timedelta(milliseconds=a["ms"]), action)
+                due = base_dt + timedelta(milliseconds=a["ms"])
+                if a.get("tz") is not None:
+                    from datetime import timezone
+                    due = due.astimezone(timezone(timedelta(hours=a["tz"])))  # the same instant, different wall-clock fields
+                disps[a["id"]] = s.schedule_absolute(due, action)
             else:
                 rec["due"] = sim.now
                 disps[a["id"]] = s.schedule(action)
@@ -78,7 +82,7 @@ class Prop:
     quick_budget = 80.0
     chunk = 100
     time_unit = "simulated seconds"
-    rule = ("seeded sets of 1-4 relative / absolute / immediate schedules (delays 0-50 ms) on TimeoutScheduler, NewThreadScheduler, "
+    rule = ("seeded sets of 1-4 relative / absolute (aware datetimes, also in zones other than UTC) / immediate schedules (delays 0-50 ms) on TimeoutScheduler, NewThreadScheduler, "
             "ThreadPoolScheduler (simulated executor) and EventLoopScheduler, with a separate controlled thread cancelling some of them at "
             "seeded simulated instants; 0-3 forced pre-emptions (site-first sampling over a dry run), spurious wake-ups and clock drift. "
             "Checked on the simulated clock: no action starts before its due time; an action whose dispose() returned strictly before its "
@@ -93,7 +97,8 @@ class Prop:
         if rng.random() < 0.1:
             return {"kind": "immediate", "delays": [rng.choice([None, 0, 0, 1, 5]) for _ in range(rng.randrange(1, 4))], "sched": {"seed": rng.getrandbits(32), "k": 0}}
         n = rng.randrange(1, 5)
-        acts = [{"id": i, "how": rng.choice(["rel", "abs", "abs", "imm"]), "ms": rng.choice([0, 1, 5, 10, 10, 20, 50])} for i in range(n)]
+        acts = [{"id": i, "how": rng.choice(["rel", "abs", "abs", "imm"]), "ms": rng.choice([0, 1, 5, 10, 10, 20, 50]),
+                 "tz": rng.choice([None, None, -5, 3, 5.5])} for i in range(n)]  # abs: the same instant written in another time zone
         cancels = [{"id": rng.randrange(n), "after_ms": rng.choice([0, 1, 2, 4, 5, 9, 10, 19, 30])} for _ in range(rng.randrange(0, 4))]
         return {"kind": rng.choice(KINDS), "actions": acts, "cancels": cancels, "sched": th.gen_sched(rng, spurious_p=0.3, drift_p=0.4)}
 
